@@ -515,7 +515,9 @@ impl PtraceDumper {
             mapping = self.find_mapping(stack_pointer);
         }
 
+        // The search may have ended beyond the guard distance in a mapping that can't be a stack
         mapping
+            .filter(|mapping| Self::may_be_stack(Some(mapping)))
             .map(|mapping| {
                 let valid_stack_pointer = if mapping.contains_address(stack_pointer) {
                     stack_pointer
